@@ -213,6 +213,10 @@ package object
 //@ func (*Proxy).call
 //@ props C09 C08
 //@ callpre[C08.call.variadic] Call: !(isVariadic && len(arg0) == numIn)
+// C08: the method receives exactly the arguments the script passed - when the Go function is called no script
+// argument is left over (KF-75 fixed: surplus arguments were dropped silently).
+//@ callpre[C08.call.allargs] Call: argIndex >= len(args)
+//@ callpre[C08.call.allargs] CallSlice: argIndex >= len(args)
 //@ requires p != nil && m != nil && goTypeMutex != nil
 //@ requires[C09.unlocked] !ghost("lock.w", bool, goTypeMutex) && !ghost("lock.r", bool, goTypeMutex)
 //@ havoc Interface
